@@ -3,7 +3,7 @@ import os
 import vlib, e2e
 from vlib import hx, unhx, case_line, show
 
-THEOREMS = ["C08_storage_source", "C08_image_source", "C08_network", "C08_service_names", "C08_tables_set", "C08_sorted"]
+THEOREMS = ["C08_storage_source", "C08_image_source", "C08_network", "C08_service_names", "C08_tables_set", "C08_sorted", "C08_names_along_the_run", "C08_volume_creates", "C08_network_creates", "C08_lower_priority_first"]
 
 SUFFIX = {"container": "", "volume": "-volume", "network": "-network", "image": "-image", "build": "-build", "pod": "-pod", "kube": ""}
 SECTION = {"container": "Container", "volume": "Volume", "network": "Network", "image": "Image", "build": "Build", "pod": "Pod", "kube": "Kube"}
